@@ -258,7 +258,7 @@ func straceSweep(run *vrun.Run, c *faultCtx, dir string, eio bool) {
 				}
 			}
 			judgeImage(run, c, "crash-strace-"+kind, N, short, img, true, meterCfg{})
-			if run.WantSample() && N == W/2+1 {
+			if N == W/2+1 && run.WantSample() && wantSample("c", 1) {
 				run.Sample(map[string]any{"part": "c/strace", "inject": inject, "helper_exit": res.exit, "leftover_bytes": len(img), "of": len(c.F)})
 			}
 		}
